@@ -464,3 +464,10 @@ def run_algebra(case, out):
             if len(B) == 2:
                 assert np.array_equal(exp, B[0] ^ B[1])
         compare_binary(out, r, exp, op, f"{len(B)} masks dtypes {[m['dtype'] for m in case['masks']]}")
+
+
+# rejected calls that run before every case (vlib/faults.py): nothing they leave behind - module state, library options,
+# stray files - may make the valid calls of the case violate the statement
+from vlib import faults as _faults  # noqa: E402
+
+fault_calls = _faults.for_property(ID)
